@@ -493,10 +493,18 @@ def round_up(s):
 ARM_ASM_RT = """
 global __sdiv
 __sdiv:
-   ; Divide r1 by r2
-   ; R4 is a work register.
-   ; r0 is the quotient
-   push {r4}
+   ; Signed division: r0 = r1 / r2, truncating towards zero.
+   ; All registers except r0 are preserved.
+   push {r1, r2, r4, r5}
+   eor r5, r1, r2     ; The sign of the quotient is in bit 31 of r5
+   cmp r1, 0          ; Divide the absolute values:
+   bge __sdiv_p1
+   rsb r1, r1, 0
+__sdiv_p1:
+   cmp r2, 0
+   bge __sdiv_p2
+   rsb r2, r2, 0
+__sdiv_p2:
    mov r4, r2         ; mov divisor into temporary register.
 
    ; Blow up divisor until it is larger than the divident.
@@ -515,6 +523,10 @@ __sdiv_dec:
    cmp r4, r2         ; Is temp less than divisor?
    bhs __sdiv_dec     ; If so, repeat.
 
-   pop {r4}
+   cmp r5, 0          ; Negate the quotient when the signs differ
+   bge __sdiv_done
+   rsb r0, r0, 0
+__sdiv_done:
+   pop {r1, r2, r4, r5}
    mov pc, lr         ; Return from function.
 """
